@@ -5,7 +5,7 @@
    implementation keeps, the regex compile cache, is shown transparent for every capacity and history. *)
 From Coq Require Import ZArith NArith List Bool.
 From Vakt Require Import Base.PyMonad Base.PyVal Model.Regex Model.Rules Model.Policy Model.Parser
-     Model.Checkers Model.Guard Model.Lru Proofs.LruP Proofs.GuardP.
+     Model.Checkers Model.Guard Model.Lru Proofs.LruP Proofs.GuardP Proofs.PolicyJsonP.
 Import ListNotations.
 
 (* asking any sequence of inquiries: each answer is the answer a fresh guard gives to that inquiry alone *)
@@ -53,3 +53,22 @@ Theorem C16_cache_bounded : forall n c k, length c <= n ->
   length (fst (fst (lru_call ckey_eqb (Some n) c k compile_key))) <= n.
 Proof. intros n c k H. eapply lru_size; [reflexivity|exact H]. Qed.
 Print Assumptions C16_cache_bounded.
+
+(* the one side effect a read-only use of a stored policy has: to_json (Policy._data, data_of) turns tuple-valued
+   attributes of the live object into lists.  Every reader of the elements sees the same sequence afterwards, the type
+   the elements imply is the same, and nothing but tuples is touched - so the answers cannot depend on whether a stored
+   policy was serialised along the way *)
+Theorem C16_serialising_keeps_elements : forall s f, field_iter (data_of s) f = field_iter s f.
+Proof. exact field_iter_data_of. Qed.
+Print Assumptions C16_serialising_keeps_elements.
+
+Theorem C16_serialising_touches_tuples_only : forall s k,
+  lookup k (data_of s) = option_map flat (lookup k s) /\
+  (forall a, (forall es, a <> ASeq true es) -> (forall l, a <> AV (VTup l)) -> flat a = a).
+Proof.
+  intros s k. split; [apply lookup_data_of|].
+  intros a H1 H2. destruct a as [v|[] es|kvs]; try reflexivity.
+  - destruct v; try reflexivity. exfalso. eapply H2. reflexivity.
+  - exfalso. eapply H1. reflexivity.
+Qed.
+Print Assumptions C16_serialising_touches_tuples_only.
